@@ -159,7 +159,42 @@ def run_parallel(modname, fn, programs, payload, jobs=None):
     return res
 
 
-def merge(name, res, rule, scope, exhaustive=False, max_fail=40):
+_KNOWN = None
+
+
+def is_known(key):
+    """does `key` match a finding listed as known in /verif/known_findings.json?  (read-only; used only to keep listed
+    findings from using up the budget of reported failures, so that they cannot mask a new one)"""
+    global _KNOWN
+    if _KNOWN is None:
+        import json
+        import re
+        _KNOWN = []
+        try:
+            with open(os.path.join(VERIF, 'known_findings.json')) as f:
+                for k in json.load(f).get('findings', []):
+                    if k.get('status') != 'known':
+                        continue
+                    if k.get('keys'):
+                        ks = frozenset(k['keys'])
+                        _KNOWN.append(ks.__contains__)
+                    elif k.get('key_re'):
+                        _KNOWN.append(lambda key, r=re.compile(k['key_re']): r.search(key) is not None)
+                    elif k.get('key'):
+                        _KNOWN.append(lambda key, pre=k['key']: key.startswith(pre))
+        except OSError:
+            pass
+    return any(m(key) for m in _KNOWN)
+
+
+def room(failures, key, new_cap, known_cap=6):
+    """budget test for one more recorded failure: listed findings and new failures are budgeted separately"""
+    kn = is_known(key)
+    n = sum(1 for f in failures if f.get('_known', False) == kn)
+    return (n < (known_cap if kn else new_cap)), kn
+
+
+def merge(name, res, rule, scope, exhaustive=False, max_fail=400):
     ev = 0
     distinct = set()
     failures, samples, counts, errors = [], [], {}, []
@@ -167,14 +202,16 @@ def merge(name, res, rule, scope, exhaustive=False, max_fail=40):
         ev += r['evaluations']
         distinct.update((prog,) + tuple(d) if isinstance(d, (tuple, list)) else (prog, d) for d in r['distinct'])
         for f in r['failures']:
-            if len(failures) < max_fail:
+            ok, kn = room(failures, f['key'], max_fail, 60)
+            if ok:
                 f.setdefault('program', prog)
-                failures.append(f)
+                failures.append(dict(f, _known=kn))
         samples.extend(r['samples'][:1])
         for k, v in r.get('counts', {}).items():
             counts[k] = counts.get(k, 0) + v
         if r.get('harness_error'):
             errors.append(r['harness_error'])
+    failures = [{k: v for k, v in f.items() if k != '_known'} for f in failures]
     return {'name': name, 'evaluations': ev, 'distinct_nontrivial': len(distinct), 'rule': rule, 'scope': scope,
             'samples': samples[:6], 'exhaustive': exhaustive, 'counts': counts, 'failures': failures,
             'harness_errors': errors, 'programs': len(res)}
